@@ -37,7 +37,7 @@ class TemplateError(Exception):
     pass
 
 
-GHOST_OK = re.compile(r'^(proof\s*\{|let\s+ghost\b|let\s+tracked\b|assert\b|assert_by\b|reveal\b|broadcast\s+use\b|//|/\*|\}|$)')
+GHOST_OK = re.compile(r'^(proof\s*\{|let\s+ghost\b|let\s+tracked\b|assert\b|assert_by\b|reveal\b|hide\s*\(|broadcast\s+use\b|//|/\*|\}|$)')
 LABEL_RE = re.compile(r'//#\s*([A-Z0-9,]+)\s+(\S+)\s*$')
 
 
@@ -57,6 +57,8 @@ class Assembled:
         self.log = {'dropped_attributes': [], 'rewrites': [], 'derive_replacements': [],
                     'doc_comments_flattened': 0}
         self.labels = {}     # label name -> dict(props, item, kind)
+        self.split_info = {}  # item -> number of parts (proof by cases over match arms)
+        self.part_select = None
 
     def text(self):
         return '\n'.join(self.lines) + '\n'
@@ -142,6 +144,8 @@ class FnDirective:
         self.ghosts = []      # (where, n_or_k, anchor_text, lines)
         self.rewrites = []    # dict(kind,count,old,new,why)
         self.nocanary = False
+        self.split = 0
+        self.split_stub = ''
 
 
 def parse_template(path):
@@ -225,6 +229,9 @@ def parse_template(path):
                     fd.mode = d[1]
                 elif k == 'nocanary':
                     fd.nocanary = True
+                elif k == 'split':
+                    fd.split = int(d[1])
+                    fd.split_stub = l.strip()[3:].strip()[len('split'):].strip()[len(d[1]):].strip()
                 elif k == 'attr':
                     cur.attrs.append(l.strip()[3:].strip()[len('attr'):].strip())
                 elif k == 'ret':
@@ -403,6 +410,153 @@ def rewrite_guard(text, rw, item, asm):
                                 'skipped_disjoint_arms': skipped,
                                 'why': rw['why'] or 'Verus limitation with &mut calls in guarded arms; falls through to `_` exactly like the guard'})
     return text[:p] + new + text[cb + 1:]
+
+
+def match_arms(text, mask, match_pos):
+    """arms of the `match` whose keyword starts at match_pos: list of (head_start, arrow_end, body_end)
+    where text[head_start:arrow_end] is `PAT =>` and text[arrow_end:body_end] the arm expression."""
+    ob = header_brace(mask, match_pos)
+    cb = match_close(mask, ob)
+    arms = []
+    q = ob + 1
+    while True:
+        while q < cb and mask[q] in ' \n\t,':
+            q += 1
+        if q >= cb:
+            break
+        d = 0
+        k = q
+        arrow = None
+        while k < cb:
+            ch = mask[k]
+            if ch in '({[':
+                d += 1
+            elif ch in ')}]':
+                d -= 1
+            elif mask.startswith('=>', k) and d == 0:
+                arrow = k
+                break
+            k += 1
+        if arrow is None:
+            raise LostAnchor("cannot parse match arms")
+        b = arrow + 2
+        while mask[b] in ' \n\t':
+            b += 1
+        if mask[b] == '{':
+            e = match_close(mask, b) + 1
+        else:
+            d = 0
+            e = b
+            while e < cb:
+                ch = mask[e]
+                if ch in '({[':
+                    d += 1
+                elif ch in ')}]':
+                    if d == 0:
+                        break
+                    d -= 1
+                elif ch == ',' and d == 0:
+                    break
+                e += 1
+        arms.append((q, arrow + 2, e))
+        q = e
+    return arms, ob, cb
+
+
+def split_by_arms(full, full_lines, line_metas, fd, item, canary):
+    """Proof by cases over the arms of the function's first `match`: part k is a copy of the whole
+    (spliced) function, renamed NAME__partK, in which the arms NOT assigned to k have their body
+    replaced by the stub (an early error return). Every arm keeps its real body in exactly one
+    part; everything outside the arms is identical in all parts. The caller emits the original
+    function as a contract-only stub, so recursive calls see the contract."""
+    mask = code_mask(full)
+    fm = re.search(r'\bfn\s+' + re.escape(fd.name + ('__canary' if canary else '')) + r'\b', mask)
+    body_open = None
+    # first `match` keyword after the function's opening brace at depth 1
+    sig_br = None
+    d = 0
+    k = fm.start()
+    while k < len(mask):
+        if mask[k] in '([':
+            d += 1
+        elif mask[k] in ')]':
+            d -= 1
+        elif mask[k] == '{' and d == 0:
+            sig_br = k
+            break
+        k += 1
+    mm = re.search(r'\bmatch\b', mask[sig_br:])
+    if not mm:
+        raise LostAnchor("split: no match in %s" % item)
+    mpos = sig_br + mm.start()
+    arms, ob, cb = match_arms(full, mask, mpos)
+    if len(arms) < 2:
+        raise LostAnchor("split: fewer than two arms in %s" % item)
+    # one part per arm whose body spans at least 3 lines; all smaller arms share the last part
+    big = [idx for idx, (h, a, e) in enumerate(arms) if full.count('\n', a, e) >= 2]
+    small = [idx for idx in range(len(arms)) if idx not in big]
+    assign = {}
+    for k2, idx in enumerate(big):
+        assign[idx] = k2
+    for idx in small:
+        assign[idx] = len(big)
+    nparts = len(big) + (1 if small else 0)
+    if canary:
+        # the canary copy keeps only the smallest arm real (enough to type-check the match)
+        smallest = min(range(len(arms)), key=lambda q: arms[q][2] - arms[q][1])
+        assign = {idx: (0 if idx == smallest else 1) for idx in range(len(arms))}
+        nparts = 1
+    # line index of every char offset
+    line_of = []
+    ln = 0
+    for ch in full:
+        line_of.append(ln)
+        if ch == '\n':
+            ln += 1
+    line_of.append(ln)
+    parts = []
+    stub_meta = {'item': item, 'origin': 'stub', 'tag': None, 'props': fd.props}
+    for part in range(nparts):
+        pieces = []   # (text, origin_line or None)
+        pos = 0
+        for idx, (h, a, e) in enumerate(arms):
+            if assign[idx] == part:
+                continue
+            pieces.append((full[pos:a], pos))
+            pieces.append((' ' + fd.split_stub, None))
+            pos = e
+        pieces.append((full[pos:], pos))
+        # rename
+        out_lines = []
+        out_metas = []
+        cur = ''
+        cur_meta = None
+        for (t, origin) in pieces:
+            o = origin
+            for ch in t:
+                if cur_meta is None and o is not None:
+                    cur_meta = line_metas[line_of[o]]
+                if ch == '\n':
+                    out_lines.append(cur)
+                    out_metas.append(cur_meta or stub_meta)
+                    cur = ''
+                    cur_meta = None
+                else:
+                    cur += ch
+                if o is not None:
+                    o += 1
+        out_lines.append(cur)
+        out_metas.append(cur_meta or stub_meta)
+        suffix = '__canary' if canary else '__part%d' % (part + 1)
+        if not canary:
+            ren = re.compile(r'\bfn(\s+)' + re.escape(fd.name) + r'\b')
+            done = False
+            for q, l in enumerate(out_lines):
+                if not done and ren.search(l):
+                    out_lines[q] = ren.sub('fn\\g<1>' + fd.name + suffix, l, count=1)
+                    done = True
+        parts.append((out_lines, out_metas))
+    return parts
 
 
 def splice_fn(fd, files, asm, canary=False, record=True):
@@ -671,7 +825,9 @@ def splice_fn(fd, files, asm, canary=False, record=True):
         o += len(s.text)
     line_start = 0
     base_line = len(asm.lines)
-    for l in full.split('\n'):
+    full_lines = full.split('\n')
+    line_metas = []
+    for l in full_lines:
         le = line_start + len(l)
         meta = code_meta
         for (a, b, mt) in offs:
@@ -680,9 +836,21 @@ def splice_fn(fd, files, asm, canary=False, record=True):
                     meta = mt
                     if mt.get('tag'):
                         break
-        asm.lines.append(l)
-        asm.meta.append(meta)
+        line_metas.append(meta)
         line_start = le + 1
+    if fd.split and fd.mode == 'proved':
+        parts = split_by_arms(full, full_lines, line_metas, fd, item, canary)
+        asm.split_info[item] = len(parts)
+        want = getattr(asm, 'part_select', None)
+        for pk, (plines, pmetas) in enumerate(parts):
+            if canary or (want is not None and want == (item, pk)):
+                asm.lines.extend(plines)
+                asm.meta.extend(pmetas)
+                asm.lines.append('')
+                asm.meta.append(code_meta)
+    else:
+        asm.lines.extend(full_lines)
+        asm.meta.extend(line_metas)
     n_code = text.count('\n') + 1
     if record:
         asm.items.append({'item': item, 'file': fd.file, 'lines': [first_line, last_line], 'mode': fd.mode,
@@ -783,8 +951,12 @@ def emit_declorder(file, name, fnname, files, asm):
             {'item': fnname, 'origin': 'generated', 'tag': None, 'props': []})
 
 
-def assemble(template_path, files, canary=False):
+def assemble(template_path, files, canary=False, part=None):
+    """part=(item, k): a file in which every proved function is a contract-only stub except part k of
+    the split function `item` (proof by cases over match arms, one file per case so that the cases
+    can be verified by parallel verifier processes)."""
     asm = Assembled()
+    asm.part_select = part
     tpl_meta = {'item': None, 'origin': 'template', 'tag': None, 'props': []}
     asm.unit = os.path.basename(os.path.dirname(template_path))
     asm.template_lines = 0
@@ -824,6 +996,19 @@ def assemble(template_path, files, canary=False):
                 asm.items.append({'item': (d[1].name if not d[1].impl else '%s::%s' % (d[1].impl.split()[-1].split('<')[0], d[1].name)),
                                   'mode': 'proved', 'nocanary': False, 'file': d[1].file, 'lines': [0, 0], 'props': d[1].props,
                                   'code_lines': 0, 'rewritten_lines': 0})
+            elif d[1].mode == 'proved' and not canary and (d[1].split or part is not None):
+                import copy
+                stub = copy.copy(d[1])
+                stub.mode = 'assumed'
+                stub.loops = {}
+                stub.ghosts = []
+                stub.split = 0
+                splice_fn(stub, files, asm, canary=False, record=False)
+                if d[1].split:
+                    # main file: only records the item and the number of parts; part file: emits part k
+                    splice_fn(d[1], files, asm, canary=False, record=(part is None))
+                elif part is None:
+                    pass
             else:
                 splice_fn(d[1], files, asm, canary=False)
     return asm
